@@ -49,6 +49,7 @@ type Input struct {
 	Prio    []string `json:"prio,omitempty"`     // prioritized files (Build)
 	Op      string   `json:"op,omitempty"`       // arithmetic op line (Kind arith)
 	MustErr bool     `json:"must_err,omitempty"` // repaired defect: opening MUST fail with an error
+	MustOK  bool     `json:"must_ok,omitempty"`  // well-formed input: opening must succeed
 	Suspect string   `json:"suspect,omitempty"`  // labelled stream of candidate findings
 	Note    string   `json:"note,omitempty"`
 }
@@ -80,7 +81,7 @@ func unhx(s string) string {
 // Settle gives a worker goroutine that is dying of a panic the time to take the process down before
 // the input is recorded as finished: the worker's deferred Done releases the main goroutine, which
 // would otherwise run on for a moment (and the crash would be pinned on a later input).
-func (r *Rec) Settle() { time.Sleep(3 * time.Millisecond) }
+func (r *Rec) Settle() { time.Sleep(5 * time.Millisecond) }
 
 // Fail records a property-oracle failure.
 func (r *Rec) Fail(sig, what string) { r.line(fmt.Sprintf("F %d %s %s", r.id, sig, hx(what))) }
@@ -133,6 +134,16 @@ func KindOf(msg string) string {
 	return "other"
 }
 
+// HandWritten: classes of the hand-written scenario streams.
+func HandWritten(class string) bool {
+	for _, p := range []string{"fixed:", "suspect:", "scenario:", "valid:"} {
+		if strings.HasPrefix(class, p) {
+			return true
+		}
+	}
+	return false
+}
+
 // sigOf builds the signature of a crash or hang.  Generated inputs: kind:site:panic-kind.  The
 // hand-written scenario streams (repaired defects, candidate findings) carry their class as well, so
 // that a known finding of a site can never hide the regression of a repaired defect of that site.
@@ -141,7 +152,7 @@ func sigOf(kind, site, pk string, in *Input) string {
 	if pk != "" {
 		s += ":" + pk
 	}
-	if strings.HasPrefix(in.Class, "fixed:") || strings.HasPrefix(in.Class, "suspect:") {
+	if HandWritten(in.Class) {
 		s += "@" + in.Class
 	}
 	return s
@@ -168,7 +179,7 @@ func OuterSiteOf(stack string) string {
 
 // Try runs one target with panic recovery and records its outcome class.
 func (r *Rec) Try(target string, f func() error) (class string) {
-	hand := strings.HasPrefix(r.class, "fixed:") || strings.HasPrefix(r.class, "suspect:")
+	hand := HandWritten(r.class)
 	if !hand && (skipTargets[target] || skipTargets[target+"|"+r.class]) {
 		r.line(fmt.Sprintf("R %d %s skipped", r.id, target))
 		return "skipped"
@@ -640,7 +651,7 @@ func Run(out *verifutil.Out, inputs []Input, cfg Config) Summary {
 			var suspects []int
 			clean := doneIDs
 			if d.how == "exit" && len(doneIDs) > 0 {
-				nsus := 3
+				nsus := 6
 				if nsus > len(doneIDs) {
 					nsus = len(doneIDs)
 				}
@@ -721,7 +732,7 @@ func Run(out *verifutil.Out, inputs []Input, cfg Config) Summary {
 	// expected to hang on a tree with open findings; alone they cost no one else time)
 	var rest []int
 	for id := range inputs {
-		if strings.HasPrefix(inputs[id].Class, "fixed:") || strings.HasPrefix(inputs[id].Class, "suspect:") {
+		if HandWritten(inputs[id].Class) {
 			ch <- []int{id}
 		} else {
 			rest = append(rest, id)
@@ -759,7 +770,7 @@ func Run(out *verifutil.Out, inputs []Input, cfg Config) Summary {
 		}
 		for _, f := range r.fails {
 			fs := f[0]
-			if strings.HasPrefix(in.Class, "fixed:") || strings.HasPrefix(in.Class, "suspect:") {
+			if HandWritten(in.Class) {
 				fs += "@" + in.Class
 			}
 			out.Fail(fs, f[1]+"; "+describe(in))
@@ -771,6 +782,13 @@ func Run(out *verifutil.Out, inputs []Input, cfg Config) Summary {
 			for _, x := range r.results {
 				if (x[0] == "open" || x[0] == "mem" || x[0] == "build.prio" || strings.HasPrefix(x[0], "footer")) && x[1] == "ok" {
 					out.Fail("repaired-input-accepted:"+in.Class, fmt.Sprintf("target %s accepted an input that must be rejected; %s", x[0], describe(in)))
+				}
+			}
+		}
+		if in.MustOK {
+			for _, x := range r.results {
+				if (x[0] == "open" || x[0] == "mem" || x[0] == "db") && x[1] == "err" {
+					out.Fail("valid-input-rejected:"+in.Class, fmt.Sprintf("target %s rejected a well-formed input; %s", x[0], describe(in)))
 				}
 			}
 		}
@@ -796,10 +814,11 @@ func Run(out *verifutil.Out, inputs []Input, cfg Config) Summary {
 				// signature names the target, the message keeps the stack
 				sig = sigOf(d.kind, d.tgt, "", in)
 			}
+			note := ""
 			if !d.confirmed {
-				sig += ":only-in-batch"
+				note = " [the child died while this input was in flight but none of the last inputs dies when run alone: the culprit is one of the inputs just before it]"
 			}
-			out.Fail(sig, fmt.Sprintf("child process died (%s) in target %s: %s ; %s", d.how, d.tgt, d.head, describe(in)))
+			out.Fail(sig, fmt.Sprintf("child process died (%s) in target %s%s: %s ; %s", d.how, d.tgt, note, d.head, describe(in)))
 		}
 		// distinct: (class, outcome vector)
 		var ov []string
